@@ -343,7 +343,9 @@ class HttpParser(abc.ABC, Generic[_MsgT]):
         data_len = len(data)
         start_pos = 0
         loop = self.loop
-        max_line_length = self.max_line_size
+        # The start line is bound by max_line_size, every later line of the
+        # head by max_field_size - wherever the read boundaries fall.
+        max_line_length = self.max_field_size if self._lines else self.max_line_size
 
         should_close = False
         while start_pos < data_len or self._payload_has_more_data:
@@ -394,6 +396,8 @@ class HttpParser(abc.ABC, Generic[_MsgT]):
                             msg: _MsgT = self.parse_message(self._lines)
                         finally:
                             self._lines.clear()
+                            # The next line is a start line again.
+                            max_line_length = self.max_line_size
 
                         def get_content_length() -> int | None:
                             # payload length
@@ -524,8 +528,9 @@ class HttpParser(abc.ABC, Generic[_MsgT]):
                     # bytes get appended to this line and leak in the error.
                     if b"\n" in self._tail:
                         raise BadHttpMessage("Bad line ending, expected CRLF")
-                    if len(self._tail) > self.max_line_size:
-                        raise LineTooLong(self._tail[:100] + b"...", self.max_line_size)
+                    # A trailing CR may be the first half of the line ending.
+                    if len(self._tail) - self._tail.endswith(b"\r") > max_line_length:
+                        raise LineTooLong(self._tail[:100] + b"...", max_line_length)
                     data = EMPTY
                     break
 
@@ -982,7 +987,11 @@ class HttpPayloadParser:
                     max_line_length = self._max_line_size
                     if self._chunk == ChunkState.PARSE_TRAILERS:
                         max_line_length = self._max_field_size
-                    if len(self._chunk_tail) > max_line_length:
+                    # A trailing CR may be the first half of the line ending.
+                    if (
+                        len(self._chunk_tail) - self._chunk_tail.endswith(b"\r")
+                        > max_line_length
+                    ):
                         raise LineTooLong(
                             self._chunk_tail[:100] + b"...", max_line_length
                         )
